@@ -1,0 +1,41 @@
+//go:build verif
+
+package lossy
+
+// Verification hook (property C13 / kernel half of C04): the portable twins of
+// the quantisation kernels (whose exported names are assembly on amd64) and the
+// decoder's inline transform dispatch.
+
+// VerifQuantizeCoeffsGo is quantizeCoeffsGo, the portable twin of QuantizeCoeffs.
+func VerifQuantizeCoeffsGo(in, out []int16, sq *SegmentQuant, firstCoeff int) int {
+	return quantizeCoeffsGo(in, out, sq, firstCoeff)
+}
+
+// VerifDequantCoeffsGo is dequantCoeffsGo, the portable twin of DequantCoeffs.
+func VerifDequantCoeffsGo(in, out []int16, sq *SegmentQuant) { dequantCoeffsGo(in, out, sq) }
+
+// VerifInitSegmentQuant is initSegmentQuant (ExpandMatrix) plus, for y1, the
+// sharpening row that setupSegment adds.
+func VerifInitSegmentQuant(dcQuant, acQuant, biasType int, sharpen bool) SegmentQuant {
+	var sq SegmentQuant
+	initSegmentQuant(&sq, dcQuant, acQuant, biasType)
+	if sharpen {
+		for i := 0; i < 16; i++ {
+			q := sq.Quant
+			if i == 0 {
+				q = sq.DCQuant
+			}
+			sq.Sharpen[i] = int16((kFreqSharpening[i] * q) >> 11)
+		}
+	}
+	return sq
+}
+
+// VerifDoTransform is doTransform: bits>>30 selects none / inline DC / AC3 / full.
+func VerifDoTransform(bits uint32, src []int16, dst []byte) { doTransform(bits, src, dst) }
+
+// VerifDoUVTransform is doUVTransform on the low 8 bits of bits.
+func VerifDoUVTransform(bits uint32, src []int16, dst []byte) { doUVTransform(bits, src, dst) }
+
+// VerifNzCodeBits is nzCodeBits.
+func VerifNzCodeBits(nzCoeffs uint32, nz, dcNz int) uint32 { return nzCodeBits(nzCoeffs, nz, dcNz) }
